@@ -3,7 +3,7 @@
    (family, size, operand bits); the correspondence executes each operation once per BlockType and compares
    the raw results.  What is proved about the limb level: the carry-chain addition loop of
    blockbinary / integer denotes the same integer for every limb width w >= 1 (Limbs.v, parametric in w). *)
-From Coq Require Import ZArith List.
+From Coq Require Import ZArith List. Import ListNotations.
 From UV Require Import Limbs IntegerModel IntProps.
 Local Open Scope Z_scope.
 
@@ -20,3 +20,17 @@ Theorem C12_integer_spec_is_blocktype_free : forall n, 1 <= n -> forall a b,
   i_add n a b = (a + b) mod 2^n /\ i_sub n a b = (a - b) mod 2^n /\ i_mul n a b = (a * b) mod 2^n.
 Proof. intros n Hn a b. exact (conj (int_add_is_mod n Hn a b) (conj (int_sub_is_mod n Hn a b) (int_mul_is_mod n Hn a b))). Qed.
 Print Assumptions C12_integer_spec_is_blocktype_free.
+
+(* the schoolbook multiplication loop nest of integer::operator*= / blockbinary (truncated to the operands' length) denotes the
+   product modulo B^len for every limb width w >= 1 -- provided the running segment is held in a wide enough accumulator *)
+Theorem C12_limb_multiplication_width_independent : forall w, 1 <= w -> forall xs ys,
+  length xs = length ys -> wf w ys ->
+  lvalue w (lmul w xs ys (repeat 0 (length ys))) = (lvalue w xs * lvalue w ys) mod B w ^ Z.of_nat (length ys).
+Proof. exact lmul_mod. Qed.
+Print Assumptions C12_limb_multiplication_width_independent.
+
+(* non-vacuity: 0xffff * 0xffff mod 2^16 computed with 8-bit, 4-bit and 16-bit limbs *)
+Example C12_witness :
+  lmul 8 [255; 255] [255; 255] [0; 0] = [1; 0] /\ lmul 4 [15; 15; 15; 15] [15; 15; 15; 15] [0; 0; 0; 0] = [1; 0; 0; 0] /\
+  lmul 16 [65535] [65535] [0] = [1] /\ fst (ladd 8 0 [255; 1] [1; 0]) = [0; 2].
+Proof. vm_compute. repeat split; reflexivity. Qed.
